@@ -10,7 +10,7 @@ import types
 from decimal import Decimal
 
 from lxml import etree
-from native.nativelib import Collector, tier
+from native.nativelib import Collector, tier, xml_canon
 from native import mdibtools as mt
 from native.C12_native import all_classes, descriptors_of, _construct
 from sdc11073.xml_types import pm_types, xml_structure as xs
@@ -216,10 +216,7 @@ def _sorted_props(cls):
 
 def _canon_node(node):
     """Exclusive canonical form: namespace declarations that are not used do not count as content."""
-    try:
-        return etree.tostring(node, method='c14n', exclusive=True)
-    except Exception:  # noqa: BLE001
-        return etree.tostring(node)
+    return xml_canon(node)
 
 
 def mdib_roundtrip():
@@ -357,7 +354,7 @@ def datatype_roundtrip():
             except Exception as ex:  # noqa: BLE001
                 continue     # mandatory members missing etc.: not a round-trip question
             if _canon_node(n1) != _canon_node(n2):
-                bad.append({'key': f'datatype-reserialise:{cls.__name__}', 'detail': f'{cls.__name__}: write -> read -> write differs: {_canon_node(n1)[:400]} vs {_canon_node(n2)[:400]}'})
+                bad.append({'key': f'datatype-reserialise:{cls.__name__}', 'detail': f'{cls.__name__}: write -> read -> write differs: {etree.tostring(n1)[:400]} vs {etree.tostring(n2)[:400]}'})
             elif _members_differ(inst, back):
                 diff = _members_differ(inst, back)
                 bad.append({'key': f'datatype-value:{cls.__name__}.{diff[0] if diff else ""}', 'detail': f'{cls.__name__}: members {diff} differ after the round trip ({getattr(inst, diff[0])!r} -> {getattr(back, diff[0])!r})' if diff else cls.__name__})
